@@ -981,3 +981,9 @@ v("d74-polars-blocks-pasted-by-position", "C17", PM,
 
 v("d75-sqlite-native-percent", "C05", "SQLite.py",
   '    return f"({e0} - FLOOR({e0} / (1.0 * {e1})) * {e1})"\n\n\ndef _sqlite_logical_or_expr', '    return f"({e0} % {e1})"\n\n\ndef _sqlite_logical_or_expr')
+
+v("d76-if-else-none-into-typed-array", "C05", PB,
+  "            if res.dtype.kind in \"iuf\":\n                res = res.astype(float)\n                res[bad_posns] = numpy.nan\n            else:\n                res = res.astype(object)\n                res[bad_posns] = None\n",
+  "            res[bad_posns] = None\n")
+v("d77-concat-spells-missing", "C05", PB,
+  "        bad_posns = numpy.logical_or(self.pd.isnull(a), self.pd.isnull(b))\n        if (numpy.ndim(res) > 0) and numpy.any(bad_posns):\n            res = res.astype(object)\n            res[numpy.broadcast_to(bad_posns, res.shape)] = None\n", "")
